@@ -133,15 +133,17 @@ def run(ctx) -> None:
         if not ss.is_async:
             continue
         cfg = ctx.cfg(ss, nr)
-        rd = reaching_defs(cfg, specialize({"interrupts": True}))
+        # the list of ready interrupt nodes: a list comprehension filtering on .is_interrupt
+        ivars = [nm for nm, ds in db.local_defs(ss).items() if len(ds) == 1 and isinstance(ds[0], ast.Assign) and isinstance(ds[0].value, ast.ListComp) and any(isinstance(x, ast.Attribute) and x.attr == "is_interrupt" for x in ast.walk(ds[0].value))]
         spawn = [n for n in cfg.nodes if n.kind == "stmt" and isinstance(n.ast, ast.Assign) and isinstance(n.ast.value, ast.ListComp) and any(isinstance(c, ast.Call) and isinstance(c.func, ast.Name) and c.func.id in ss.children for c in ast.walk(n.ast.value))]
-        idefs = [d for d in db.local_defs(ss).get("interrupts", [])]
-        ok = bool(spawn) and len(idefs) == 1 and isinstance(idefs[0], ast.Assign) and isinstance(idefs[0].value, ast.ListComp) and any(isinstance(x, ast.Attribute) and x.attr == "is_interrupt" for x in ast.walk(idefs[0].value))
+        ok = bool(spawn) and len(ivars) == 1
         why = "interrupt list not recognised"
         if ok:
+            iv = ivars[0]
+            rd = reaching_defs(cfg, specialize({iv: True}))
             it = spawn[0].ast.value.generators[0].iter
             ds = defs_reaching(cfg, rd, spawn[0], it.id) if isinstance(it, ast.Name) else []
-            ok = bool(ds) and all(isinstance(v, ast.List) and len(v.elts) == 1 and isinstance(v.elts[0], ast.Subscript) and src(v.elts[0].value) == "interrupts" for d, v in ds)
+            ok = bool(ds) and all(isinstance(v, ast.List) and len(v.elts) == 1 and isinstance(v.elts[0], ast.Subscript) and src(v.elts[0].value) == iv for d, v in ds)
             why = "with an interrupt ready, the executed list is exactly one interrupt" if ok else "with an interrupt ready, other nodes can still be gathered in the same step (a pause would cancel them mid-flight)"
         rep.add("C14.R3", f"{ss.qname}:isolation", ok, ss.loc(), why)
 
@@ -188,8 +190,11 @@ def run(ctx) -> None:
     rep.add("C14.R4", f"{call.qname}:resume-path", ok, call.loc(), why)
     raises = [n for n in cfg.nodes if n.kind == "stmt" and isinstance(n.ast, ast.Raise) and isinstance(n.ast.exc, ast.Call) and "PauseExecution" in src(n.ast.exc.func)]
     ok = bool(raises)
+    from .common import vars_from_call
+
+    rvars = set(vars_from_call(db, call, {"_call_handler"})) or {"response"}
     for rz in raises:
-        live = reachable(cfg.entry, specialize({"response is None": False}))
+        live = reachable(cfg.entry, specialize({f"{rv} is None": False for rv in rvars}))
         if rz in live:
             ok = False
     rep.add("C14.R4", f"{call.qname}:pause-path", ok, f"{call.module.rel}:{raises[0].lineno if raises else call.lineno}", "PauseExecution is raised exactly when the handler returned None" if ok else "pause is raised although the handler produced a response, or never raised")
@@ -197,7 +202,7 @@ def run(ctx) -> None:
     ok = True
     for rz in raises:
         pass
-    live_none = reachable(cfg.entry, specialize({"response is None": True}))
+    live_none = reachable(cfg.entry, specialize({f"{rv} is None": True for rv in rvars}))
     late_returns = [r for r in rets if r not in resume and r in live_none]
     rep.add("C14.R4", f"{call.qname}:pause-returns-nothing", not late_returns, call.loc(), "when the handler returns None no outputs are returned (nothing is written, no dependant becomes ready)" if not late_returns else f"outputs can be returned at line {late_returns[0].lineno} although the handler returned None")
 
